@@ -270,6 +270,37 @@ func lkCancel(rec *lkRec, cat *Catalogue, store string, enc *json.Encoder) bool 
 	rec.mu.Lock()
 	rec.gateOpen = nil
 	rec.mu.Unlock()
+	// requests whose context is cancelled before they start leave nothing behind: the repository stays usable
+	for i := 0; i < 24; i++ {
+		cctx, ccancel := context.WithCancel(olareg.VerifWithActor(context.Background(), "cancelled"))
+		ccancel()
+		creq, _ := http.NewRequestWithContext(cctx, []string{"GET", "HEAD"}[i%2], "/v2/lk/repo/tags/list", nil)
+		creq.Body = http.NoBody
+		cdone := make(chan struct{})
+		go func() { srv.S.ServeHTTP(httptest.NewRecorder(), creq); close(cdone) }()
+		select {
+		case <-cdone:
+		case <-time.After(3 * time.Second):
+			ok, note = false, "a request with an already cancelled context did not return"
+		}
+		if !ok {
+			break
+		}
+	}
+	if ok {
+		if r := srv.Do("GET", "/v2/lk/repo/tags/list", nil, nil, true, "after"); r.Hung || r.Status != 200 {
+			ok, note = false, fmt.Sprintf("after requests with cancelled contexts the repository no longer answers (status %d, hung %v)", r.Status, r.Hung)
+		}
+	}
+	if ok {
+		gc2 := make(chan struct{})
+		go func() { _ = srv.S.VerifGC("lk/repo"); close(gc2) }()
+		select {
+		case <-gc2:
+		case <-time.After(5 * time.Second):
+			ok, note = false, "a collection after requests with cancelled contexts did not return"
+		}
+	}
 	closed := make(chan struct{})
 	go func() { _ = srv.Close(); close(closed) }()
 	select {
